@@ -43,7 +43,7 @@ func genCfg(r *Rng, o EngineGenOpts, hist map[string]int) cfgGen {
 		c.io = o.FixedIO
 	}
 	c.idx = 1 + r.Intn(3)
-	c.shards = r.Pick(1, 2, 3, 16, 1024, 5000)
+	c.shards = r.Pick(1, 2, 3, 16, 1024, 5000, 0, -1, 1<<40)
 	hist[fmt.Sprintf("cfg_fsize_%d", c.fsize)]++
 	hist[fmt.Sprintf("cfg_sync_%d", c.sync)]++
 	hist[fmt.Sprintf("cfg_io_%d", c.io)]++
